@@ -50,12 +50,14 @@ FldMatch(sf, ff) == \A i \in 1..2 : FM(sf)[i] = "-" \/ FM(sf)[i] = FM(ff)[i]
 FldMatchG(s, f) == IF "kv" \in DOMAIN s
                    THEN \A i \in 1..Len(s.kv) : \E j \in 1..Len(f.kv) : f.kv[j] = s.kv[i]
                    ELSE FldMatch(s.fld, f.flds)
-LabelLower(f) == IF "llabel" \in DOMAIN f THEN f.llabel ELSE f.label
+\* label tokens: "B" is the one written with a capital letter (str.lower gives "b")
+Lower(l) == IF l = "B" THEN "b" ELSE l
+LabelLower(f) == IF "llabel" \in DOMAIN f THEN f.llabel ELSE Lower(f.label)
 Suppressed(f, S) == \E s \in S :
     \/ s.k = "cat" /\ s.cat = f.cat
     \/ s.k = "catf" /\ s.cat = f.cat /\ FldMatchG(s, f)                  \* a whole category, narrowed by fields
-    \/ s.k = "catlabel" /\ s.cat = f.cat /\ s.label = LabelLower(f)          \* category-scoped labels compare lower-cased
-    \/ s.k = "catlabelf" /\ s.cat = f.cat /\ s.label = LabelLower(f) /\ FldMatchG(s, f)
+    \/ s.k = "catlabel" /\ s.cat = f.cat /\ Lower(s.label) = LabelLower(f)   \* category-scoped labels compare lower-cased
+    \/ s.k = "catlabelf" /\ s.cat = f.cat /\ Lower(s.label) = LabelLower(f) /\ FldMatchG(s, f)
     \/ s.k = "label" /\ s.label = f.label
     \/ s.k = "labelf" /\ s.label = f.label /\ FldMatchG(s, f)
 
